@@ -3,6 +3,7 @@
 cd "$(dirname "$0")/.." || exit 2
 seeds="${1:-1 2 3}"; tiers="${2:-quick}"
 mkdir -p sweep_logs
+(cd gohelpers && env -u GOSUMDB -u GOWORK GOPROXY=off GOFLAGS=-mod=mod GOTOOLCHAIN=auto go build -o bin/ ./cmd/...) || exit 2
 ids=$(python3 -c "import json;print(' '.join(c['property_id'] for c in json.load(open('MANIFEST.json'))['checks']))")
 for tier in $tiers; do for s in $seeds; do for id in $ids; do
   t0=$(date +%s)
